@@ -107,9 +107,24 @@ pub fn check_pair(sources: &Sources, base_yaml: &str, through_cli: bool, r: &mut
                 dir.write(name, text);
             }
             dir.write("base.yaml", base_yaml);
-            let res = run_cli(&dir.path, &["-m", &sources.main, "-t", "out.yaml", "-b", "base.yaml"]);
+            // The three ways to name a base: the option, the configuration file, and the option
+            // over a configuration file that names another (valid) base: the option wins.
+            dir.write("decoy.yaml", "openapi: 3.0.3\ninfo:\n  title: decoy\n  version: '0'\npaths: {}\n");
+            let how = sources.hash64() % 3;
+            let res = match how {
+                0 => run_cli(&dir.path, &["-m", &sources.main, "-t", "out.yaml", "-b", "base.yaml"]),
+                1 => {
+                    dir.write("oal.toml", &format!("[api]\nmain = \"{}\"\ntarget = \"out.yaml\"\nbase = \"base.yaml\"\n", sources.main));
+                    run_cli(&dir.path, &["-c", "oal.toml"])
+                }
+                _ => {
+                    dir.write("oal.toml", &format!("[api]\nmain = \"{}\"\ntarget = \"out.yaml\"\nbase = \"decoy.yaml\"\n", sources.main));
+                    run_cli(&dir.path, &["-c", "oal.toml", "-b", "base.yaml"])
+                }
+            };
+            r.label(["cli-base:option", "cli-base:config", "cli-base:option-over-config"][how as usize]);
             if res.code != Some(0) {
-                r.fail(Failure::new("c14:cli-fails-with-base", format!("oal-cli --base exits with {}: {}", res.status, res.stderr)));
+                r.fail(Failure::new("c14:cli-fails-with-base", format!("oal-cli with a base exits with {}: {}", res.status, res.stderr)));
                 return;
             }
             let text = std::fs::read_to_string(dir.path.join("out.yaml")).unwrap_or_default();
@@ -170,7 +185,7 @@ impl Property for C14 {
             base_yaml.hash(&mut h);
             h.finish()
         };
-        let through_cli = tape.chance(1, 12);
+        let through_cli = tape.chance(1, 8);
         let class = check_pair(&sources, &base_yaml, through_cli, &mut r);
         r.evaluations = 2;
         r.label(format!("class:{class}"));
